@@ -8,14 +8,19 @@ NOTE_COMMON = ('Trusted: Coq 8.16.1 kernel + vm_compute (no native_compute, no a
                'Rust fragment and of arbitrary-int 1.3.0 (Expr.v), validated by differential execution; the syn-based translator '
                'and the dump hook; corpus printers; rustc/cargo. The statement about the code is: for every corpus declaration '
                '(regenerated and re-expanded by the real macro on every run) and ALL inputs; declarations outside the corpus are '
-               'covered only as far as the generator model mirrors the code.')
+               'covered by the parametric theorems over the hand-written generator model (Gen.v/GenCorrect.v, Parse.v, Enum.v, '
+               'Builder.v, Surface.v) as far as that model mirrors the code: it is compared with the real expansion on every run '
+               '(semantic obligations, verdicts, surface equality; term-for-term agreement of Gen.v is reported: 100% on the '
+               'unchanged tree). Axioms: none (Print Assumptions closed for every property theorem; coqchk -o: Axioms <none>).')
 
 CLAIMED = {
     'C01': ('Reflective proof: the real getter body of every corpus declaration is translated to a Coq term and checked by a verified '
             'symbolic bit evaluator against the abstract register (Spec.v) for all raw values, both profiles (theorems C01_getter_exact, '
-            'C01_bit_weights, C01_outside_bits_irrelevant).', '4 C01'),
+            'C01_bit_weights, C01_outside_bits_irrelevant); plus C01_generator_model_every_getter: the model of codegen.rs (identical, '
+            'term for term, to the real expansion on the corpus) is correct for ALL layouts, raw values and indices.', '4 C01'),
     'C02': ('Reflective proof of both emitted setter bodies (with_ and set_ separately) against Spec.v scatter for all raw values and '
-            'arguments; read-back and frame are theorems of Spec.v (C02_setter_exact, C02_readback, C02_frame).', '4 C02'),
+            'arguments; read-back and frame are theorems of Spec.v (C02_setter_exact, C02_readback, C02_frame); plus '
+            'C02_generator_model_every_setter for ALL layouts over the generator model.', '4 C02'),
     'C03': ('Reflective proof for every in-range index of every corpus array field (getter, with_, set_), plus the syntactic index-assert '
             'obligation whose theorem C03_oob_panics covers every index >= K.', '4 C03'),
     'C04': ('Reflective proof for range-list fields: expected bit provenance is the permutation given by Spec.v (nth_pos / find_pos); '
